@@ -21,7 +21,7 @@ import (
 // C19: encodings are lossless - RPCs through the bundled (real gRPC) transport,
 // log records, term/vote, configurations and snapshot metadata round-trip.
 
-const c19Rule = "generated AppendEntries / RequestVote / InstallSnapshot requests and responses sent through two bundled transports on loopback (real gRPC): every field over {0, 1, max uint64, random}, ids empty / ASCII / multi-byte UTF-8, 0-64 entries of all three types with nil / empty / 1 B / large data (single entries and stored log entries up to 3 MiB), snapshot chunks of 0 B - 64 KiB; log entries, (term, vote) pairs, configurations (0-7 members, voters and non-voters) and snapshot metadata written through the storage API and read back by a fresh instance; oracle: received == sent and returned == generated field by field (nil and empty byte slices are equal on the wire; LogEntry.Offset is storage-local); plus an end-to-end transfer of a snapshot of N bytes (below and above the 32 KiB chunk size and the 4 MiB default RPC limit) from a leader to an empty node over the bundled transport; " +
+const c19Rule = "generated AppendEntries / RequestVote / InstallSnapshot requests and responses sent through two bundled transports on loopback (real gRPC): every field over {0, 1, max uint64, random}, ids empty / ASCII / multi-byte UTF-8, 0-5000 entries of all three types with nil / empty / 1 B / large data (single entries and stored log entries up to 3 MiB), snapshot chunks of 0 B - 64 KiB; log entries, (term, vote) pairs, configurations (0-7 members, voters and non-voters) and snapshot metadata written through the storage API and read back by a fresh instance; oracle: received == sent and returned == generated field by field (nil and empty byte slices are equal on the wire; LogEntry.Offset is storage-local); plus an end-to-end transfer of a snapshot of N bytes (below and above the 32 KiB chunk size and the 4 MiB default RPC limit) from a leader to an empty node over the bundled transport; " +
 	"non-trivial = the message contains a configuration-type entry, an extreme value (0 / max uint64 / non-ASCII id) or a payload above the chunk size; distinct by hash of the generated value"
 
 type codecPair struct {
@@ -203,12 +203,19 @@ func oneCodecCase(rt *rapid.T, p *codecPair, dir string) (string, bool, any) {
 	switch kind {
 	case "AE":
 		req := raft.AppendEntriesRequest{LeaderID: genID(rt, "leader"), Term: genU64(rt, "term"), LeaderCommit: genU64(rt, "commit"), PrevLogIndex: genU64(rt, "prev"), PrevLogTerm: genU64(rt, "prevT")}
-		n := rapid.SampledFrom([]int{0, 0, 1, 2, 5, 64}).Draw(rt, "entries")
+		n := rapid.SampledFrom([]int{0, 0, 1, 2, 5, 64, 64, 1000, 1024, 1025, 2049, 5000}).Draw(rt, "entries")
 		nt := false
+		many := n > 64 // a follower that is far behind is sent everything it misses in one request: small entries, many of them
 		for i := 0; i < n; i++ {
 			ty := raft.LogEntryType(rapid.IntRange(0, 2).Draw(rt, "ty"))
 			var d []byte
-			if ty == raft.ConfigurationEntry {
+			if many {
+				nt = true
+				d = []byte{byte(i), byte(i >> 8)}
+				if ty == raft.ConfigurationEntry {
+					ty = raft.OperationEntry
+				}
+			} else if ty == raft.ConfigurationEntry {
 				_, d = genConf(rt, p.a)
 				nt = true
 			} else if n == 1 && rapid.IntRange(0, 3).Draw(rt, "big") == 0 {
